@@ -1,10 +1,16 @@
+// Shared specification vocabulary (DESIGN.md section 3).  Ghost only: spec fns, proof fns and
+// external specifications of dependency items.  Nothing in this file is driver code.
 pub mod vf {
 use vstd::prelude::*;
 use vstd::std_specs::iter::*;
 use embedded_hal::digital::{OutputPin, ErrorType};
 use embedded_hal::delay::DelayNs;
 use embedded_graphics_core::pixelcolor::{PixelColor, RgbColor, Rgb565, Rgb666};
+use embedded_graphics_core::geometry::{Point, Size};
+use embedded_graphics_core::primitives::Rectangle;
+use crate::options::{Orientation, Rotation, ColorOrder, RefreshOrder, VerticalRefreshOrder, HorizontalRefreshOrder, ModelOptions};
 
+// ------------------------------------------------------------------ external trait specifications
 #[verifier::external_trait_specification]
 pub trait ExHalError: core::fmt::Debug {
     type ExternalTraitSpecificationFor: embedded_hal::digital::Error;
@@ -23,6 +29,7 @@ pub trait ExSpiErrorType {
     type ExternalTraitSpecificationFor: embedded_hal::spi::ErrorType;
     type Error: embedded_hal::spi::Error;
 }
+/// One `SpiDevice::write` call: the bytes handed to the device and whether it reported success.
 pub struct SpiWrite { pub bytes: Seq<u8>, pub ok: bool }
 #[verifier::external_trait_specification]
 #[verifier::external_trait_extension(SpiDeviceSpec via SpiDeviceSpecImpl)]
@@ -31,6 +38,7 @@ pub trait ExSpiDevice<Word: Copy + 'static>: embedded_hal::spi::ErrorType {
     spec fn writes(&self) -> Seq<SpiWrite>;
     fn write(&mut self, buf: &[Word]) -> (r: Result<(), Self::Error>);
 }
+/// One `OutputPin` call.
 pub struct PinOp { pub high: bool, pub ok: bool }
 #[verifier::external_trait_specification]
 #[verifier::external_trait_extension(OutputPinSpec via OutputPinSpecImpl)]
@@ -69,16 +77,14 @@ pub struct ExRgb565(Rgb565);
 #[verifier::external_body]
 pub struct ExRgb666(Rgb666);
 
+#[verifier::external_type_specification]
+#[verifier::external_body]
+pub struct ExNoResetPin(crate::builder::NoResetPin);
+
 pub assume_specification [i32::rem_euclid] (a: i32, b: i32) -> (r: i32)
     requires b > 0,
     ensures r as int == (a as int) % (b as int);
 
-
-pub open spec fn be16(x: u16) -> Seq<u8> { seq![(x >> 8) as u8, (x & 0xff) as u8] }
-#[verifier::external_body]
-pub fn u16_to_be_bytes(x: u16) -> (r: [u8; 2])
-    ensures r@ == be16(x)
-{ x.to_be_bytes() }
 #[verifier::external_type_specification]
 #[verifier::external_body]
 #[verifier::reject_recursive_types(T)]
@@ -86,7 +92,304 @@ pub struct ExOnce<T>(core::iter::Once<T>);
 pub assume_specification<T> [core::iter::once] (v: T) -> (r: core::iter::Once<T>)
     ensures r.obeys_prophetic_iter_laws(), r.remaining() == seq![v];
 
-#[verifier::external_type_specification]
+// ------------------------------------------------------------------------------ bytes and traces
+/// Big-endian (most significant byte first) rendering of a 16-bit quantity, as MIPI DCS requires.
+pub open spec fn be16(x: u16) -> Seq<u8> { seq![(x >> 8) as u8, (x & 0xff) as u8] }
+
+/// R11: `u16::to_be_bytes` (std).  Contract re-checked by Kani over all u16.
 #[verifier::external_body]
-pub struct ExNoResetPin(crate::builder::NoResetPin);
+pub fn u16_to_be_bytes(x: u16) -> (r: [u8; 2])
+    ensures r@ == be16(x), r@.len() == 2, r[0] == (x >> 8) as u8, r[1] == (x & 0xff) as u8
+{ x.to_be_bytes() }
+
+/// What crosses the `Interface` boundary (section 3.1).
+pub enum Ev<W> {
+    /// `send_command(instruction, params)`
+    Cmd(u8, Seq<u8>),
+    /// a burst of pixels, each a sequence of bus words
+    Px(Seq<Seq<W>>),
+    /// a transport operation reported failure; nothing of the failing call follows it
+    Fault,
 }
+
+/// `b` extends `a` by a burst that ended in a fault.
+pub open spec fn faulted<W>(a: Seq<Ev<W>>, b: Seq<Ev<W>>) -> bool {
+    a.len() < b.len() && b.subrange(0, a.len() as int) == a && b.last() is Fault
+}
+
+// ------------------------------------------------------------------------- orientation geometry
+pub open spec fn spec_degree(r: Rotation) -> int {
+    match r { Rotation::Deg0 => 0, Rotation::Deg90 => 90, Rotation::Deg180 => 180, Rotation::Deg270 => 270 }
+}
+pub open spec fn rot_of_degree(d: int) -> Rotation {
+    if d == 0 { Rotation::Deg0 } else if d == 90 { Rotation::Deg90 } else if d == 180 { Rotation::Deg180 } else { Rotation::Deg270 }
+}
+pub open spec fn rot_vertical(r: Rotation) -> bool { r == Rotation::Deg90 || r == Rotation::Deg270 }
+pub open spec fn spec_rot_add(a: Rotation, b: Rotation) -> Rotation {
+    rot_of_degree((spec_degree(a) + spec_degree(b)) % 360)
+}
+pub open spec fn spec_o_rotate(o: Orientation, r: Rotation) -> Orientation {
+    Orientation { rotation: spec_rot_add(o.rotation, r), mirrored: o.mirrored }
+}
+/// Size of the logical image for a panel window of `w` x `h` cells.
+pub open spec fn logical_size(o: Orientation, w: int, h: int) -> (int, int) {
+    if rot_vertical(o.rotation) { (h, w) } else { (w, h) }
+}
+/// C01's statement: rotate the logical image clockwise by the rotation, then mirror left-right in the
+/// panel frame if mirrored.  (w, h) is the panel window; result is relative to the window's origin.
+pub open spec fn panel_cell(o: Orientation, w: int, h: int, x: int, y: int) -> (int, int) {
+    let p = match o.rotation {
+        Rotation::Deg0 => (x, y),
+        Rotation::Deg90 => (w - 1 - y, x),
+        Rotation::Deg180 => (w - 1 - x, h - 1 - y),
+        Rotation::Deg270 => (y, h - 1 - x),
+    };
+    if o.mirrored { (w - 1 - p.0, p.1) } else { p }
+}
+/// Clockwise rotation of a point of a `lw` x `lh` image by `r`.
+pub open spec fn rot_cw(r: Rotation, lw: int, lh: int, x: int, y: int) -> (int, int) {
+    match r {
+        Rotation::Deg0 => (x, y),
+        Rotation::Deg90 => (lh - 1 - y, x),
+        Rotation::Deg180 => (lw - 1 - x, lh - 1 - y),
+        Rotation::Deg270 => (y, lw - 1 - x),
+    }
+}
+/// Flip tables, hand-derived from the geometric meaning and *validated* against it by
+/// `lemma_flip_h_geometry` / `lemma_flip_v_geometry` below (they are not read off the code).
+pub open spec fn spec_flip_h(o: Orientation) -> Orientation {
+    match (o.rotation, o.mirrored) {
+        (Rotation::Deg0, m) => Orientation { rotation: Rotation::Deg0, mirrored: !m },
+        (Rotation::Deg90, m) => Orientation { rotation: Rotation::Deg270, mirrored: !m },
+        (Rotation::Deg180, m) => Orientation { rotation: Rotation::Deg180, mirrored: !m },
+        (Rotation::Deg270, m) => Orientation { rotation: Rotation::Deg90, mirrored: !m },
+    }
+}
+pub open spec fn spec_flip_v(o: Orientation) -> Orientation {
+    match (o.rotation, o.mirrored) {
+        (Rotation::Deg0, m) => Orientation { rotation: Rotation::Deg180, mirrored: !m },
+        (Rotation::Deg90, m) => Orientation { rotation: Rotation::Deg90, mirrored: !m },
+        (Rotation::Deg180, m) => Orientation { rotation: Rotation::Deg0, mirrored: !m },
+        (Rotation::Deg270, m) => Orientation { rotation: Rotation::Deg270, mirrored: !m },
+    }
+}
+pub open spec fn in_img(lw: int, lh: int, x: int, y: int) -> bool { 0 <= x < lw && 0 <= y < lh }
+
+/// C15: extending by a rotation == drawing the clockwise pre-rotated image under the original.
+/// (x, y) is a point of the logical image of `spec_o_rotate(o, r)`.
+pub proof fn lemma_rotate_geometry(o: Orientation, r: Rotation, w: int, h: int, x: int, y: int)
+    requires w >= 1, h >= 1,
+        in_img(logical_size(spec_o_rotate(o, r), w, h).0, logical_size(spec_o_rotate(o, r), w, h).1, x, y),
+    ensures
+        ({ let ls = logical_size(spec_o_rotate(o, r), w, h);
+           let q = rot_cw(r, ls.0, ls.1, x, y);
+           let lo = logical_size(o, w, h);
+           in_img(lo.0, lo.1, q.0, q.1) && panel_cell(spec_o_rotate(o, r), w, h, x, y) == panel_cell(o, w, h, q.0, q.1) }),
+{
+}
+/// C15: flip_horizontal == drawing the left-right pre-mirrored image under the original.
+pub proof fn lemma_flip_h_geometry(o: Orientation, w: int, h: int, x: int, y: int)
+    requires w >= 1, h >= 1, in_img(logical_size(o, w, h).0, logical_size(o, w, h).1, x, y),
+    ensures logical_size(spec_flip_h(o), w, h) == logical_size(o, w, h),
+        panel_cell(spec_flip_h(o), w, h, x, y) == panel_cell(o, w, h, logical_size(o, w, h).0 - 1 - x, y),
+{
+}
+/// C15: flip_vertical == drawing the top-bottom pre-mirrored image under the original.
+pub proof fn lemma_flip_v_geometry(o: Orientation, w: int, h: int, x: int, y: int)
+    requires w >= 1, h >= 1, in_img(logical_size(o, w, h).0, logical_size(o, w, h).1, x, y),
+    ensures logical_size(spec_flip_v(o), w, h) == logical_size(o, w, h),
+        panel_cell(spec_flip_v(o), w, h, x, y) == panel_cell(o, w, h, x, logical_size(o, w, h).1 - 1 - y),
+{
+}
+/// The geometric behaviour determines the orientation (so the tables above are the only ones that
+/// satisfy the statement): two orientations that place the points of a 3 x 2 panel identically are equal.
+pub proof fn lemma_orientation_determined(a: Orientation, b: Orientation)
+    requires
+        logical_size(a, 3, 2) == logical_size(b, 3, 2),
+        panel_cell(a, 3, 2, 0, 0) == panel_cell(b, 3, 2, 0, 0),
+        panel_cell(a, 3, 2, 1, 0) == panel_cell(b, 3, 2, 1, 0),
+    ensures a == b,
+{
+}
+/// C15 consequences: four quarter turns, two equal flips, h-then-v flip == half turn, rotations add.
+pub proof fn lemma_rot_add_table(a: Rotation, b: Rotation)
+    ensures
+        spec_degree(spec_rot_add(a, b)) == (spec_degree(a) + spec_degree(b)) % 360,
+        spec_rot_add(a, Rotation::Deg0) == a,
+        spec_rot_add(Rotation::Deg0, b) == b,
+        spec_rot_add(a, b) == spec_rot_add(b, a),
+        spec_rot_add(Rotation::Deg90, Rotation::Deg90) == Rotation::Deg180,
+        spec_rot_add(Rotation::Deg90, Rotation::Deg180) == Rotation::Deg270,
+        spec_rot_add(Rotation::Deg90, Rotation::Deg270) == Rotation::Deg0,
+        spec_rot_add(Rotation::Deg180, Rotation::Deg180) == Rotation::Deg0,
+        spec_rot_add(Rotation::Deg180, Rotation::Deg270) == Rotation::Deg90,
+        spec_rot_add(Rotation::Deg270, Rotation::Deg270) == Rotation::Deg180,
+{
+}
+pub proof fn lemma_rot_add_assoc(a: Rotation, b: Rotation, c: Rotation)
+    ensures spec_rot_add(spec_rot_add(a, b), c) == spec_rot_add(a, spec_rot_add(b, c)),
+{
+    lemma_rot_add_table(a, b);
+    lemma_rot_add_table(b, c);
+    lemma_rot_add_table(spec_rot_add(a, b), c);
+    lemma_rot_add_table(a, spec_rot_add(b, c));
+}
+pub proof fn lemma_orientation_group(o: Orientation, r1: Rotation, r2: Rotation)
+    ensures
+        spec_o_rotate(spec_o_rotate(spec_o_rotate(spec_o_rotate(o, Rotation::Deg90), Rotation::Deg90), Rotation::Deg90), Rotation::Deg90) == o,
+        spec_o_rotate(spec_o_rotate(spec_o_rotate(spec_o_rotate(o, Rotation::Deg270), Rotation::Deg270), Rotation::Deg270), Rotation::Deg270) == o,
+        spec_o_rotate(spec_o_rotate(o, Rotation::Deg180), Rotation::Deg180) == o,
+        spec_o_rotate(o, Rotation::Deg0) == o,
+        spec_flip_h(spec_flip_h(o)) == o,
+        spec_flip_v(spec_flip_v(o)) == o,
+        spec_flip_v(spec_flip_h(o)) == spec_o_rotate(o, Rotation::Deg180),
+        spec_flip_h(spec_flip_v(o)) == spec_o_rotate(o, Rotation::Deg180),
+        spec_o_rotate(spec_o_rotate(o, r1), r2) == spec_o_rotate(o, spec_rot_add(r1, r2)),
+        spec_degree(spec_rot_add(r1, r2)) == (spec_degree(r1) + spec_degree(r2)) % 360,
+{
+    let d90 = Rotation::Deg90; let d180 = Rotation::Deg180; let d270 = Rotation::Deg270;
+    lemma_rot_add_table(o.rotation, d90);
+    lemma_rot_add_table(o.rotation, d180);
+    lemma_rot_add_table(o.rotation, d270);
+    lemma_rot_add_table(o.rotation, Rotation::Deg0);
+    lemma_rot_add_table(r1, r2);
+    lemma_rot_add_assoc(o.rotation, r1, r2);
+    lemma_rot_add_assoc(o.rotation, d90, d90);
+    lemma_rot_add_assoc(o.rotation, d180, d90);
+    lemma_rot_add_assoc(o.rotation, d270, d90);
+    lemma_rot_add_assoc(o.rotation, d270, d270);
+    lemma_rot_add_assoc(o.rotation, d180, d270);
+    lemma_rot_add_assoc(o.rotation, d90, d270);
+    lemma_rot_add_assoc(o.rotation, d180, d180);
+    lemma_rot_add_table(d90, d90);
+}
+
+// ----------------------------------------------------------------- MADCTL (set address mode) bits
+/// (MY, MX, MV) = (row reversal, column reversal, row/column exchange) required by an orientation.
+/// Hand-derived table; `lemma_mapping_places_pixels` validates it against the C01 geometry through
+/// the controller's decode of the three bits (`ctrl_phys`).
+pub open spec fn spec_mapping(o: Orientation) -> (bool, bool, bool) {
+    let (my, mx) = match o.rotation {
+        Rotation::Deg0 => (false, false),
+        Rotation::Deg90 => (false, true),
+        Rotation::Deg180 => (true, true),
+        Rotation::Deg270 => (true, false),
+    };
+    (my, mx != o.mirrored, rot_vertical(o.rotation))
+}
+/// How a MIPI-DCS controller with framebuffer `fw` x `fh` maps address (c, r) to a physical cell under
+/// MV/MX/MY: exchange first, then mirror the physical column/row (section 3.2).
+pub open spec fn ctrl_phys(my: bool, mx: bool, mv: bool, fw: int, fh: int, c: int, r: int) -> (int, int) {
+    let p = if mv { (r, c) } else { (c, r) };
+    (if mx { fw - 1 - p.0 } else { p.0 }, if my { fh - 1 - p.1 } else { p.1 })
+}
+/// Offsets the driver has to add to logical coordinates (property-level characterisation, see C01):
+/// a panel window w x h at (ox, oy) in a framebuffer fw x fh.
+pub open spec fn spec_window_shift(o: Orientation, fw: int, fh: int, w: int, h: int, ox: int, oy: int) -> (int, int) {
+    let m = spec_mapping(o);
+    let sx = if m.1 { fw - (w + ox) } else { ox };
+    let sy = if m.0 { fh - (h + oy) } else { oy };
+    if m.2 { (sy, sx) } else { (sx, sy) }
+}
+/// C01 core: address (x + a, y + b) sent by the driver is decoded by the controller to the cell the
+/// statement names: rotate clockwise, mirror, shift by the offset.
+pub proof fn lemma_mapping_places_pixels(o: Orientation, fw: int, fh: int, w: int, h: int, ox: int, oy: int, x: int, y: int)
+    requires 1 <= w, 1 <= h, 0 <= ox, 0 <= oy, w + ox <= fw, h + oy <= fh,
+        in_img(logical_size(o, w, h).0, logical_size(o, w, h).1, x, y),
+    ensures
+        ({ let m = spec_mapping(o);
+           let s = spec_window_shift(o, fw, fh, w, h, ox, oy);
+           let pc = panel_cell(o, w, h, x, y);
+           &&& ctrl_phys(m.0, m.1, m.2, fw, fh, x + s.0, y + s.1) == (ox + pc.0, oy + pc.1)
+           &&& 0 <= s.0 && 0 <= s.1
+           &&& x + s.0 < (if m.2 { fh } else { fw })
+           &&& y + s.1 < (if m.2 { fw } else { fh })
+           &&& 0 <= pc.0 < w && 0 <= pc.1 < h }),
+{
+}
+
+pub open spec fn b2u(b: bool, v: u8) -> u8 { if b { v } else { 0u8 } }
+pub open spec fn spec_orientation_bits(o: Orientation) -> u8 {
+    let m = spec_mapping(o);
+    b2u(m.0, 0x80) | b2u(m.1, 0x40) | b2u(m.2, 0x20)
+}
+pub open spec fn spec_refresh_bits(r: RefreshOrder) -> u8 {
+    b2u(r.vertical == VerticalRefreshOrder::BottomToTop, 0x10) | b2u(r.horizontal == HorizontalRefreshOrder::RightToLeft, 0x04)
+}
+pub open spec fn spec_color_bits(c: ColorOrder) -> u8 { b2u(c == ColorOrder::Bgr, 0x08) }
+/// C14: replacing one input rewrites exactly that input's bits.
+pub open spec fn spec_with_color(b: u8, c: ColorOrder) -> u8 { (b & !0x08u8) | spec_color_bits(c) }
+pub open spec fn spec_with_orientation(b: u8, o: Orientation) -> u8 { (b & !0xE0u8) | spec_orientation_bits(o) }
+pub open spec fn spec_with_refresh(b: u8, r: RefreshOrder) -> u8 { (b & !0x14u8) | spec_refresh_bits(r) }
+/// The MIPI-DCS address-mode byte for the three inputs; bits 1-0 are zero.
+pub open spec fn spec_madctl(c: ColorOrder, o: Orientation, r: RefreshOrder) -> u8 {
+    spec_orientation_bits(o) | spec_refresh_bits(r) | spec_color_bits(c)
+}
+pub open spec fn spec_madctl_of(opts: ModelOptions) -> u8 {
+    spec_madctl(opts.color_order, opts.orientation, opts.refresh_order)
+}
+/// bit-level facts used by the lemmas below (each over all 256 bytes / all bit patterns)
+pub proof fn lemma_bits_u8(b: u8, x: u8, y: u8, z: u8)
+    requires x & !0xE0u8 == 0, y & !0x14u8 == 0, z & !0x08u8 == 0,
+    ensures
+        ((((0u8 & !0x08u8) | z) & !0xE0u8 | x) & !0x14u8) | y == x | y | z,
+        (x | y | z) & 0x03u8 == 0,
+        // setters commute
+        (((b & !0x08u8) | z) & !0xE0u8) | x == (((b & !0xE0u8) | x) & !0x08u8) | z,
+        (((b & !0x08u8) | z) & !0x14u8) | y == (((b & !0x14u8) | y) & !0x08u8) | z,
+        (((b & !0xE0u8) | x) & !0x14u8) | y == (((b & !0x14u8) | y) & !0xE0u8) | x,
+        // each setter touches only its own bits
+        ((b & !0x08u8) | z) & !0x08u8 == b & !0x08u8,
+        ((b & !0xE0u8) | x) & !0xE0u8 == b & !0xE0u8,
+        ((b & !0x14u8) | y) & !0x14u8 == b & !0x14u8,
+        ((b & !0x08u8) | z) & 0x08u8 == z,
+        ((b & !0xE0u8) | x) & 0xE0u8 == x,
+        ((b & !0x14u8) | y) & 0x14u8 == y,
+{
+    assert(((((0u8 & !0x08u8) | z) & !0xE0u8 | x) & !0x14u8) | y == x | y | z) by(bit_vector)
+        requires x & !0xE0u8 == 0, y & !0x14u8 == 0, z & !0x08u8 == 0;
+    assert((x | y | z) & 0x03u8 == 0) by(bit_vector)
+        requires x & !0xE0u8 == 0, y & !0x14u8 == 0, z & !0x08u8 == 0;
+    assert((((b & !0x08u8) | z) & !0xE0u8) | x == (((b & !0xE0u8) | x) & !0x08u8) | z) by(bit_vector)
+        requires x & !0xE0u8 == 0, z & !0x08u8 == 0;
+    assert((((b & !0x08u8) | z) & !0x14u8) | y == (((b & !0x14u8) | y) & !0x08u8) | z) by(bit_vector)
+        requires y & !0x14u8 == 0, z & !0x08u8 == 0;
+    assert((((b & !0xE0u8) | x) & !0x14u8) | y == (((b & !0x14u8) | y) & !0xE0u8) | x) by(bit_vector)
+        requires x & !0xE0u8 == 0, y & !0x14u8 == 0;
+    assert(((b & !0x08u8) | z) & !0x08u8 == b & !0x08u8) by(bit_vector) requires z & !0x08u8 == 0;
+    assert(((b & !0xE0u8) | x) & !0xE0u8 == b & !0xE0u8) by(bit_vector) requires x & !0xE0u8 == 0;
+    assert(((b & !0x14u8) | y) & !0x14u8 == b & !0x14u8) by(bit_vector) requires y & !0x14u8 == 0;
+    assert(((b & !0x08u8) | z) & 0x08u8 == z) by(bit_vector) requires z & !0x08u8 == 0;
+    assert(((b & !0xE0u8) | x) & 0xE0u8 == x) by(bit_vector) requires x & !0xE0u8 == 0;
+    assert(((b & !0x14u8) | y) & 0x14u8 == y) by(bit_vector) requires y & !0x14u8 == 0;
+}
+pub proof fn lemma_field_bits(c: ColorOrder, o: Orientation, r: RefreshOrder)
+    ensures spec_orientation_bits(o) & !0xE0u8 == 0, spec_refresh_bits(r) & !0x14u8 == 0, spec_color_bits(c) & !0x08u8 == 0,
+{
+    assert(0x80u8 & !0xE0u8 == 0 && 0x40u8 & !0xE0u8 == 0 && 0x20u8 & !0xE0u8 == 0 && 0u8 & !0xE0u8 == 0) by(bit_vector);
+    assert(forall|a: u8, b: u8, c: u8| a & !0xE0u8 == 0 && b & !0xE0u8 == 0 && c & !0xE0u8 == 0 ==> #[trigger] ((a | b | c) & !0xE0u8) == 0) by(bit_vector);
+    assert(0x10u8 & !0x14u8 == 0 && 0x04u8 & !0x14u8 == 0 && 0u8 & !0x14u8 == 0) by(bit_vector);
+    assert(forall|a: u8, b: u8| a & !0x14u8 == 0 && b & !0x14u8 == 0 ==> #[trigger] ((a | b) & !0x14u8) == 0) by(bit_vector);
+    assert(0x08u8 & !0x08u8 == 0 && 0u8 & !0x08u8 == 0) by(bit_vector);
+}
+/// C14: applying the three setters to 0 in the order `new`/`from` use gives the MIPI byte, any order of
+/// application on any start byte gives the same result, and each setter leaves the other bits alone.
+pub proof fn lemma_madctl_setters(b: u8, c: ColorOrder, o: Orientation, r: RefreshOrder)
+    ensures
+        spec_with_refresh(spec_with_orientation(spec_with_color(0u8, c), o), r) == spec_madctl(c, o, r),
+        spec_madctl(c, o, r) & 0x03u8 == 0,
+        spec_with_orientation(spec_with_color(b, c), o) == spec_with_color(spec_with_orientation(b, o), c),
+        spec_with_refresh(spec_with_color(b, c), r) == spec_with_color(spec_with_refresh(b, r), c),
+        spec_with_refresh(spec_with_orientation(b, o), r) == spec_with_orientation(spec_with_refresh(b, r), o),
+        spec_with_color(b, c) & !0x08u8 == b & !0x08u8,
+        spec_with_orientation(b, o) & !0xE0u8 == b & !0xE0u8,
+        spec_with_refresh(b, r) & !0x14u8 == b & !0x14u8,
+        spec_with_color(b, c) & 0x08u8 == spec_color_bits(c),
+        spec_with_orientation(b, o) & 0xE0u8 == spec_orientation_bits(o),
+        spec_with_refresh(b, r) & 0x14u8 == spec_refresh_bits(r),
+{
+    lemma_field_bits(c, o, r);
+    lemma_bits_u8(b, spec_orientation_bits(o), spec_refresh_bits(r), spec_color_bits(c));
+}
+
+} // mod vf
